@@ -763,7 +763,8 @@ func (e *SpecEnv) evalCall(n ECall) Val {
 		return Val{T: fmt.Sprintf("(fp.isNaN %s)", arg(0).T), S: sBool}
 	case "visited":
 		// visited(k): key k already iterated in the (single) map range of this function
-		for name, v := range e.st.ghosts {
+		for _, name := range sortedKeys(e.st.ghosts) {
+			v := e.st.ghosts[name]
 			if strings.HasPrefix(name, "$visited:") {
 				k := arg(0)
 				k = g.coerce(k, v.S.Idx, nil)
